@@ -312,11 +312,12 @@ Rank(x) == CASE x = "N" -> 0 [] x = "P" -> 1 [] x = "W" -> 2 [] x = "C" -> 3 [] 
 
 \* relay moves only forward; hence a value is received at most once
 \* (the only steps into "D" are Await/recv and Try/ok, both from "C")
-RelayForward == [][\A c \in Tasks : Rank(relay'[c]) >= Rank(relay[c])]_avars
+RelayFwdStep == \A c \in Tasks : Rank(relay'[c]) >= Rank(relay[c])
+RelayForward == [][RelayFwdStep]_avars
 
 \* a finished task stays finished, a task never becomes absent again
-StatusForward ==
-  [][\A t \in Tasks : (st[t] = "D" => st'[t] = "D") /\ (st[t] # "A" => st'[t] # "A")]_avars
+StatusFwdStep == \A t \in Tasks : (st[t] = "D" => st'[t] = "D") /\ (st[t] # "A" => st'[t] # "A")
+StatusForward == [][StatusFwdStep]_avars
 
 AbsInv == TypeOK /\ WokenKnown /\ DoneNeverPolled /\ OvBound /\ StallGenuine /\ RelayOK
 =============================================================================
